@@ -532,6 +532,10 @@ func freshVector() []string {
 	v = append(v, fmt.Sprintf("shared options: acao=%q cred=%q url=%q", oc.Header.Get("Access-Control-Allow-Origin"), oc.Header.Get("Access-Control-Allow-Credentials"), u))
 	g := newGroup()
 	v = append(v, "group: "+hv.Serve(g, hv.Req{Method: "GET", Path: "/x"}).Summary())
+	v = append(v, "package lists: "+strings.Join(mux.Methods(), ",")+" / "+strings.Join(mux.AnyMethods(), ","))
+	ra := NewRouter(RouterCfg{})
+	ra.Handle("/any", hv.Route("hAny"), nil) // Any: uses the package's default method list
+	v = append(v, "any: "+RoutesString(RoutesOf(ra)))
 	return v
 }
 
@@ -589,6 +593,12 @@ func c07bJob(raw json.RawMessage) (any, error) {
 			for i := range o.MethodsLive {
 				o.MethodsLive[i] = "CLOBBERED"
 			}
+		}
+	}
+	// ... and the package-level lists
+	for _, l := range [][]string{mux.Methods(), mux.AnyMethods()} {
+		for i := range l {
+			l[i] = "CLOBBERED"
 		}
 	}
 	got := freshVector()
